@@ -82,7 +82,7 @@ SEEDS = {
 }
 
 def parse_matrix(name):
-    path = f"/tmp/seedmatrix/{name}.log"
+    path = f"/tmp/seedmatrix_final/{name}.log"
     if not os.path.exists(path):
         return None
     text = open(path).read()
